@@ -504,6 +504,12 @@ func readAll(c netio.Conn, bufs []int, path int, limit int) ([]byte, error) {
 				return out, errTooMuch
 			}
 			if err == io.EOF {
+				// end-of-stream is sticky: a further Read must report EOF again and no data
+				// (a reader must never see already-delivered bytes a second time)
+				n2, err2 := c.Read(buf[:sz])
+				if n2 != 0 || err2 != io.EOF {
+					return out, fmt.Errorf("Read after EOF returned n=%d err=%v, want 0, EOF", n2, err2)
+				}
 				return out, nil
 			}
 			if err != nil {
